@@ -266,7 +266,6 @@ void run_extract(vf::Ctx &c) {
     if (r.sampled >= 0)
       VFP_CHECK(c, (int)e.sampled == r.sampled, P + (r.debug ? ":debug-flag-not-sampled" : ":wrong-sampled"),
                 vf::sfmt("decoded sampled=%d, the documented meaning is sampled=%d: %s", (int)e.sampled, r.sampled, shown.c_str()));
-    VFP_CHECK(c, (e.flags & 0xfe) == 0 || true, P + ":flags", "");  // other flag bits are not part of the statement
   }
   c.state(P + "|" + e.canon());
   c.outcome(P + "|" + e.canon());
